@@ -33,6 +33,9 @@ structure GenCfg where
   /-- raw address bytes of the scenario and module accounts (`G addr` lines); needed wherever store order
   depends on address bytes (whitelist, locked/spent entries, streams) -/
   addrBytes : List (Addr × List Nat) := []
+  /-- authz grants present in the genesis document (`G authz` lines): (granter, grantee, message kind) — the way an
+  account that holds no key (a module-derived, group-policy or interchain account) comes to act at all -/
+  grants : List (Addr × Addr × String) := []
   deriving Repr
 
 def moduleAccounts : List Addr := [Mbond, Mdist, Ment, Mfee, Mgov, Mnbond, Mstr, Mxfer]
@@ -57,6 +60,7 @@ def initState (g : GenCfg) : State :=
     wrk := { kind := .wrk, params := g.wrk, nextId := g.wrkStart }
     bcn := { kind := .bcn, params := g.bcn, nextId := g.bcnStart }
     str := { fee := g.strFee }
+    grants := g.grants
     time := g.timeSec * nsPerSec }
 
 def Node.init (g : GenCfg) : Node :=
